@@ -43,56 +43,6 @@ pub fn suffix_offset(whole: &str, suffix: &str) -> (r: usize)
 #[verifier::external_body]
 pub fn char_is_ascii_whitespace(c: char) -> (r: bool) ensures r == is_ws(c) { unimplemented!() }
 
-// ---- exact behaviour of the two scanners (used by C16; C17 needs only the substring clauses)
-pub open spec fn is_ws(c: char) -> bool { c == ' ' || c == '\t' || c == '\n' || c == '\x0C' || c == '\r' }
-// number of leading ASCII-whitespace characters
-pub open spec fn skip_ws(s: Seq<char>) -> int
-    decreases s.len()
-{ if s.len() == 0 { 0 } else if is_ws(s[0]) { 1 + skip_ws(s.skip(1)) } else { 0 } }
-// characters consumed by the quote-aware scan up to and including the first `stop` outside quotes (all, if there is none)
-pub open spec fn scan_out(s: Seq<char>, stop: char) -> int
-    decreases s.len(), 1int
-{ if s.len() == 0 { 0 } else if s[0] == stop { 1 } else if s[0] == '"' { 1 + scan_in(s.skip(1), stop) } else { 1 + scan_out(s.skip(1), stop) } }
-pub open spec fn scan_in(s: Seq<char>, stop: char) -> int
-    decreases s.len(), 0int
-{
-    if s.len() == 0 { 0 } else if s[0] == '"' { 1 + scan_out(s.skip(1), stop) }
-    else if s[0] == '\\' { if s.len() == 1 { 1 } else { 2 + scan_in(s.skip(2), stop) } }
-    else { 1 + scan_in(s.skip(1), stop) }
-}
-proof fn lemma_scan_bounds(s: Seq<char>, stop: char)
-    ensures 0 <= scan_out(s, stop) <= s.len(), 0 <= scan_in(s, stop) <= s.len()
-    decreases s.len()
-{
-    if s.len() > 0 {
-        lemma_scan_bounds(s.skip(1), stop);
-        if s.len() > 1 { lemma_scan_bounds(s.skip(2), stop); }
-    }
-}
-proof fn lemma_skip_ws_bounds(s: Seq<char>)
-    ensures 0 <= skip_ws(s) <= s.len(), skip_ws(s) < s.len() ==> !is_ws(s[skip_ws(s)]), forall|j: int| 0 <= j < skip_ws(s) ==> is_ws(s[j])
-    decreases s.len()
-{
-    if s.len() > 0 && is_ws(s[0]) {
-        lemma_skip_ws_bounds(s.skip(1));
-        let k = skip_ws(s.skip(1));
-        if k < s.skip(1).len() { assert(s.skip(1)[k] == s[k + 1]); }
-        assert forall|j: int| 0 <= j < 1 + k implies is_ws(s[j]) by { if j > 0 { assert(s.skip(1)[j - 1] == s[j]); } }
-    }
-}
-// what LinkFormatParser::next does with a non-empty input that starts (after white space) with '<'
-pub open spec fn lf_after_lt(s: Seq<char>) -> Seq<char> { s.skip(skip_ws(s) + 1) }
-pub open spec fn lf_link_end(a: Seq<char>) -> int { let j = first_index(a, '>'); if j < a.len() { j + 1 } else { a.len() as int } }
-pub open spec fn lf_link(s: Seq<char>) -> Seq<char> { let a = lf_after_lt(s); trim_end_of(a.take(lf_link_end(a)), '>') }
-pub open spec fn lf_attr_text(s: Seq<char>) -> Seq<char> { let a = lf_after_lt(s); a.skip(lf_link_end(a)) }
-pub open spec fn lf_attrs(s: Seq<char>) -> Seq<char> { let b = lf_attr_text(s); trim_start_of(trim_end_of(trim_end_of(b.take(scan_out(b, ',')), ','), ';'), ';') }
-pub open spec fn lf_rest(s: Seq<char>) -> Seq<char> { let b = lf_attr_text(s); b.skip(scan_out(b, ',')) }
-// what LinkAttributeParser::next does with a non-empty input
-pub open spec fn la_seg(s: Seq<char>) -> Seq<char> { trim_end_of(s.take(scan_out(s, ';')), ';') }
-pub open spec fn la_key(s: Seq<char>) -> Seq<char> { let g = la_seg(s); let f = first_index(g, '='); trim_start_ws(trim_end_ws(if f < g.len() { g.take(f) } else { g })) }
-pub open spec fn la_value(s: Seq<char>) -> Seq<char> { let g = la_seg(s); let f = first_index(g, '='); trim_start_ws(trim_end_ws(if f < g.len() { g.skip(f + 1) } else { Seq::<char>::empty() })) }
-pub open spec fn la_rest(s: Seq<char>) -> Seq<char> { s.skip(scan_out(s, ';')) }
-
 // vstd's prophetic iterator laws are not claimed for the three iterators; their contracts are on `next`
 impl<'a> vstd::std_specs::iter::IteratorSpecImpl for LinkAttributeParser<'a> {
     open spec fn obeys_prophetic_iter_laws(&self) -> bool { false }
@@ -136,7 +86,7 @@ def boundaries(name):
 def build(repo):
     u = Unit(NAME, repo)
     u.raw('use vstd::std_specs::iter::IteratorSpec;\n', 'units/lfp.py')
-    u.prelude('strmodel.rs')
+    u.prelude('strmodel.rs', 'lfscan.rs')
     u.raw(SPEC, 'units/lfp.py')
     u.items('link_format.rs', 'pub enum ErrorLinkFormat', 'const QUOTE_ESCAPE_CHAR', 'const ATTR_SEPARATOR_CHAR', 'const LINK_SEPARATOR_CHAR',
             'pub struct LinkFormatParser', "impl<'a> Iterator for LinkFormatParser<'a>", 'pub struct LinkAttributeParser',
@@ -175,43 +125,43 @@ def build(repo):
                 &&& (r is Some && r->0 is Ok ==> r->0->Ok_0.0@ == lf_link(s) && r->0->Ok_0.1.inner@ == lf_attrs(s) && final(self).inner@ == lf_rest(s)) })''', props=PROPS)
     u.before(LN, r'let mut iter = self\.inner\.chars\(\);', PRE)
     u.loop(LN, 0, '''            invariant_except_break
-                skip_ws(whole) == (whole.len() - iter.remaining().len()) + skip_ws(iter.remaining()),
+                skip_ws(whole) == (whole.len() - iter.remaining().len()) + skip_ws(iter.remaining()), // @props C16
             invariant is_suffix(iter.remaining(), whole), whole.len() > 0, ""@.len() == 0, is_suffix(""@, whole), whole == old(self).inner@,
                 %s,
             ensures is_suffix(iter.remaining(), whole), iter.remaining().len() < whole.len(),
-                whole.len() - iter.remaining().len() == skip_ws(whole) + 1, skip_ws(whole) < whole.len(), whole[skip_ws(whole)] == '<',
+                whole.len() - iter.remaining().len() == skip_ws(whole) + 1, skip_ws(whole) < whole.len(), whole[skip_ws(whole)] == '<', // @props C16
             decreases chars_len(iter)''' % SUFFIX_STEP)
     u.after(LN, r'let link_ref = iter\.as_str\(\);', '        let ghost k1 = whole.len() - link_ref@.len();\n        let ghost lr0 = link_ref@;\n        proof { assert(lr0 == lf_after_lt(whole)); }')
     u.loop(LN, 1, '''            invariant_except_break
-                first_index(lr0, '>') == (lr0.len() - iter.remaining().len()) + first_index(iter.remaining(), '>'),
+                first_index(lr0, '>') == (lr0.len() - iter.remaining().len()) + first_index(iter.remaining(), '>'), // @props C16
             invariant is_suffix(iter.remaining(), whole), iter.remaining().len() <= lr0.len(),
                 %s,
             ensures is_suffix(iter.remaining(), whole), iter.remaining().len() <= lr0.len(),
-                lr0.len() - iter.remaining().len() == lf_link_end(lr0),
+                lr0.len() - iter.remaining().len() == lf_link_end(lr0), // @props C16
             decreases chars_len(iter)''' % SUFFIX_STEP)
     u.before(LN, r'let link_len\s*=', boundaries('lr0'))
     u.after(LN, r"let link_ref = [^;]*;", '''        let ghost t1 = link_ref@.len() as int;
-        proof { assert(link_ref@ =~= whole.subrange(k1, k1 + t1)); assert(link_ref@ == lf_link(whole)); }''', nth=1, count=2)
+        proof { assert(link_ref@ =~= whole.subrange(k1, k1 + t1)); assert(link_ref@ == lf_link(whole)); /* @props C16 */ }''', nth=1, count=2)
     u.after(LN, r'let mut attr_keys = iter\.as_str\(\);', '        let ghost k2 = whole.len() - attr_keys@.len();\n        let ghost ak0 = attr_keys@;\n        proof { assert(ak0 =~= lr0.skip(lf_link_end(lr0))); assert(ak0 == lf_attr_text(whole)); }')
     u.loop(LN, 2, '''            invariant_except_break
-                scan_out(ak0, ',') == (ak0.len() - iter.remaining().len()) + scan_out(iter.remaining(), ','),
+                scan_out(ak0, ',') == (ak0.len() - iter.remaining().len()) + scan_out(iter.remaining(), ','), // @props C16
             invariant is_suffix(iter.remaining(), whole), iter.remaining().len() <= ak0.len(),
                 %s,
             ensures is_suffix(iter.remaining(), whole), iter.remaining().len() <= ak0.len(),
-                ak0.len() - iter.remaining().len() == scan_out(ak0, ','),
+                ak0.len() - iter.remaining().len() == scan_out(ak0, ','), // @props C16
             decreases chars_len(iter)''' % SUFFIX_STEP)
     u.loop_body_start(LN, 2, '            let ghost d0 = chars_len(iter);')
     u.loop(LN, 3, '''                        invariant_except_break
-                            scan_out(ak0, ',') == (ak0.len() - iter.remaining().len()) + scan_in(iter.remaining(), ','),
+                            scan_out(ak0, ',') == (ak0.len() - iter.remaining().len()) + scan_in(iter.remaining(), ','), // @props C16
                         invariant is_suffix(iter.remaining(), whole), iter.remaining().len() <= ak0.len(), chars_len(iter) < d0,
                             %s,
-                        ensures scan_out(ak0, ',') == (ak0.len() - iter.remaining().len()) + scan_out(iter.remaining(), ','),
+                        ensures scan_out(ak0, ',') == (ak0.len() - iter.remaining().len()) + scan_out(iter.remaining(), ','), // @props C16
                         decreases chars_len(iter)''' % SUFFIX_STEP)
     u.before(LN, r'let attr_len\s*=', boundaries('ak0'))
     u.after(LN, r'(?<!mut )attr_keys\s*=\s*[^;]*;', '''        let ghost t2 = attr_keys@.len() as int;
         proof {
             assert(attr_keys@ =~= whole.subrange(k2, k2 + t2));
-            assert(attr_keys@ == trim_end_of(ak0.take(scan_out(ak0, ',')), ','));
+            assert(attr_keys@ == trim_end_of(ak0.take(scan_out(ak0, ',')), ',')); // @props C16
             lemma_sub_of_sub(whole, attr_keys@, k2, k2 + t2);
         }''')
 
@@ -231,23 +181,23 @@ def build(repo):
                 item.0@ == la_key(s) && item.1.state == UnquoteState::NotStarted && item.1.inner.remaining() == la_value(s) && final(self).inner@ == la_rest(s) })''', props=PROPS)
     u.before(AN, r'let mut iter = self\.inner\.chars\(\);', PRE)
     u.loop(AN, 0, '''            invariant_except_break
-                scan_out(whole, ';') == (whole.len() - iter.remaining().len()) + scan_out(iter.remaining(), ';'),
+                scan_out(whole, ';') == (whole.len() - iter.remaining().len()) + scan_out(iter.remaining(), ';'), // @props C16
             invariant is_suffix(iter.remaining(), whole), whole == self.inner@, whole.len() > 0,
                 %s,
             ensures is_suffix(iter.remaining(), whole), iter.remaining().len() < whole.len(),
-                whole.len() - iter.remaining().len() == scan_out(whole, ';'),
+                whole.len() - iter.remaining().len() == scan_out(whole, ';'), // @props C16
             decreases chars_len(iter)''' % SUFFIX_STEP)
     u.loop_body_start(AN, 0, '            let ghost d0 = chars_len(iter);')
     u.loop(AN, 1, '''                        invariant_except_break
-                            scan_out(whole, ';') == (whole.len() - iter.remaining().len()) + scan_in(iter.remaining(), ';'),
+                            scan_out(whole, ';') == (whole.len() - iter.remaining().len()) + scan_in(iter.remaining(), ';'), // @props C16
                         invariant is_suffix(iter.remaining(), whole), iter.remaining().len() < whole.len(), chars_len(iter) < d0,
                             %s,
-                        ensures scan_out(whole, ';') == (whole.len() - iter.remaining().len()) + scan_out(iter.remaining(), ';'),
+                        ensures scan_out(whole, ';') == (whole.len() - iter.remaining().len()) + scan_out(iter.remaining(), ';'), // @props C16
                         decreases chars_len(iter)''' % SUFFIX_STEP)
     u.before(AN, r'let attr_len\s*=', boundaries('whole'))
     u.after(AN, r'self\.inner = iter\.as_str\(\);', '        let ghost n = whole.len() - self.inner@.len();\n        proof { assert(self.inner@ =~= la_rest(whole)); }')
     u.after(AN, r'let attr_str = [^;]*;', '''        let ghost t = attr_str@.len() as int;
-        proof { assert(attr_str@ =~= whole.subrange(0, t)); assert(attr_str@ == la_seg(whole)); }''', nth=1, count=2)
+        proof { assert(attr_str@ =~= whole.subrange(0, t)); assert(attr_str@ == la_seg(whole)); /* @props C16 */ }''', nth=1, count=2)
     u.before(AN, r'let \(key, value\) = if let', '        let ghost mut ka: int = 0; let ghost mut kb: int = 0; let ghost mut va: int = 0; let ghost mut vb: int = 0;\n        proof { lemma_first_index(attr_str@, \'=\'); }')
     u.before(AN, r'let \(key, value\) = str_split_at', '            proof { lemma_first_index(attr_str@, \'=\'); lemma_off_unique(attr_str@, first_index(attr_str@, \'=\')); }')
     u.before(AN, r'\(key, str_from\(value, 1\)\)', '''            proof {
@@ -255,7 +205,7 @@ def build(repo):
                 assert(value@[0] == '='); axiom_boff_ascii(value@); lemma_off_unique(value@, 1);
                 assert(key@ =~= whole.subrange(0, f));
                 assert(value@.skip(1) =~= whole.subrange(f + 1, t));
-                assert(value@.skip(1) =~= attr_str@.skip(f + 1));
+                assert(value@.skip(1) =~= attr_str@.skip(f + 1)); // @props C16
                 ka = 0; kb = f; va = f + 1; vb = t;
             }''')
     u.before(AN, r'\(attr_str, ""\)', '            proof { assert(""@ =~= whole.subrange(t, t)); assert(""@ =~= Seq::<char>::empty()); ka = 0; kb = t; va = t; vb = t; }')
@@ -263,8 +213,8 @@ def build(repo):
             assert(0 <= ka <= kb <= va <= vb <= n);
             assert(key@ == whole.subrange(ka, kb) && value@ == whole.subrange(va, vb));
             let g = la_seg(whole); let f = first_index(g, '=');
-            assert(key@ == (if f < g.len() { g.take(f) } else { g }));
-            assert(value@ == (if f < g.len() { g.skip(f + 1) } else { Seq::<char>::empty() }));
+            assert(key@ == (if f < g.len() { g.take(f) } else { g })); // @props C16
+            assert(value@ == (if f < g.len() { g.skip(f + 1) } else { Seq::<char>::empty() })); // @props C16
             lemma_sub_of_sub(whole, key@, ka, kb);
             lemma_sub_of_sub(whole, value@, va, vb);
         }''')
